@@ -14,7 +14,7 @@ use std::sync::Mutex;
 const FINDING: &str = "C12-respelled-duplicates";
 
 /// another spelling of the relative path `rel` (of a file below `home`)
-fn respell(rng: &mut Rng, t: &Tree, rel: &str, home: &str, pd: Option<&str>, stats: &mut BTreeMap<String, u64>) -> String {
+fn respell(rng: &mut Rng, _t: &Tree, rel: &str, home: &str, pd: Option<&str>, stats: &mut BTreeMap<String, u64>) -> String {
     let mut count = |k: &str| *stats.entry(format!("spelling.{}", k)).or_insert(0) += 1;
     let seps: Vec<usize> = rel.bytes().enumerate().filter(|(_, b)| *b == b'/').map(|(i, _)| i).collect();
     let mut k = rel.to_string();
@@ -125,7 +125,11 @@ fn gen_case(rng: &mut Rng, t: &Tree, stats: &mut BTreeMap<String, u64>) -> C12Ca
                 respell(rng, t, &rel, &home, cfg.pd.as_deref(), stats)
             };
             let i = entries.len() as u32;
-            entries.push((k, gen_cov(rng, i)));
+            let mut c = gen_cov(rng, i);
+            // no 100000+ marker lines here: covdir writes one array slot per line number
+            c.lines.remove(&(MARK + i));
+            c.lines.insert(20 + i, 0);
+            entries.push((k, c));
         }
     }
     rng.shuffle(&mut entries);
@@ -158,11 +162,14 @@ fn run_impl_c12(case: &C12Case) -> Result<Recs, String> {
     call_rewrite(&case.cfg, m)
 }
 
-fn duplicates(recs: &Recs) -> Vec<(String, bool)> {
-    let mut by_rel: BTreeMap<&str, BTreeSet<&str>> = BTreeMap::new();
+/// paths reported more than once, and whether the records sharing one denote one file: their
+/// absolute paths agree once relative ones are taken from the cwd and "."/".." are resolved
+fn duplicates(recs: &Recs, cwd: &str) -> Vec<(String, bool)> {
+    let mut by_rel: BTreeMap<&str, BTreeSet<Option<String>>> = BTreeMap::new();
     let mut n: BTreeMap<&str, usize> = BTreeMap::new();
     for (a, r, _) in recs {
-        by_rel.entry(r).or_default().insert(a);
+        let full = if a.starts_with('/') { a.clone() } else { format!("{}/{}", cwd, a) };
+        by_rel.entry(r).or_default().insert(spec_normalize(&full));
         *n.entry(r).or_insert(0) += 1;
     }
     n.iter()
@@ -233,6 +240,17 @@ fn covdir_of(rep: &Report, recs: &Recs, tag: &str) -> Result<Value, String> {
     serde_json::from_str(&text).map_err(|e| e.to_string())
 }
 
+/// covdir can represent the report: no record is a directory or the empty path, and no reported
+/// path is also a directory prefix of another one (a name cannot be both a file and a directory)
+fn covdir_domain(recs: &Recs) -> bool {
+    recs.iter().all(|(a, r, _)| {
+        !r.is_empty()
+            && r != "/"
+            && !Path::new(a).is_dir()
+            && !recs.iter().any(|(_, r2, _)| r2.starts_with(&format!("{}/", r)))
+    })
+}
+
 /// independent aggregation: the line counts a file's single record must carry
 fn expected_lines(entries: &[&CovResult]) -> BTreeMap<u32, u64> {
     let mut m: BTreeMap<u32, u128> = BTreeMap::new();
@@ -251,7 +269,7 @@ fn oracles(rep: &mut Report, t: &Tree, case: &C12Case, r: &Result<Recs, String>,
         Ok(x) => x,
         Err(_) => return fails,
     };
-    let dups = duplicates(recs);
+    let dups = duplicates(recs, &t.cw);
     let g = guard(case, t);
     if let Some(g) = g {
         rep.count(&format!("guard.{}", g));
@@ -294,7 +312,7 @@ fn oracles(rep: &mut Report, t: &Tree, case: &C12Case, r: &Result<Recs, String>,
         }
     }
     // totals of the covdir report
-    if recs.iter().all(|(_, r, _)| !r.is_empty() && r != "/") {
+    if covdir_domain(recs) {
         match covdir_of(rep, recs, tag) {
             Ok(v) => {
                 let mut bad = vec![];
@@ -383,12 +401,15 @@ fn stream(rep: &mut Report, rng: &mut Rng) {
         let mut couts = vec![];
         for i in 0..reqs.len() {
             if let Ok(recs) = &results[i] {
-                if i % 4 == 0 && !recs.is_empty() && recs.iter().all(|(_, r, _)| !r.is_empty() && r != "/") {
+                if i % 4 == 0 && !recs.is_empty() && covdir_domain(recs) {
                     if let Ok(v) = covdir_of(rep, recs, "tie") {
                         let mut bad = vec![];
                         let (total, listed) = covdir_check(&v, &mut bad, "");
+                        // which record a tree writer keeps for a duplicated path depends on the
+                        // order of the records: the listed total is compared only without duplicates
+                        let nodup = duplicates(recs, &t.cw).is_empty();
                         creqs.push(request("covdir", &t, &cases[i].cfg, &cases[i].flat()));
-                        couts.push((format!("{} {}", total, listed), i));
+                        couts.push((format!("{} {}", total, listed), i, nodup));
                     }
                 }
             }
@@ -397,7 +418,12 @@ fn stream(rep: &mut Report, rng: &mut Rng) {
         for j in 0..creqs.len() {
             rep.case(&creqs[j], true);
             rep.count("covdir.totals_compared");
-            if couts[j].0 != cmodel[j] {
+            let same = if couts[j].2 {
+                couts[j].0 == cmodel[j]
+            } else {
+                couts[j].0.split(' ').next() == cmodel[j].split(' ').next()
+            };
+            if !same {
                 rep.disagreements_checked += 1;
                 let mut cj = cases[couts[j].1].to_json(&t);
                 cj["impl_totals"] = json!(couts[j].0);
